@@ -104,7 +104,8 @@ claim(
     "counters are symbolic and absent from the postcondition, 'no matter how often matched before' follows.  eval_dyn bumps exactly the "
     "selected pattern's counter [K-bnd, thorough].  CallCounter::fetch_add returns old, stores old+1 [K-full].  MockAssembler::push "
     "appends in clause order and leaves other methods alone [V, all map states; K-full for the vacant path], finish hands the lists over unchanged [V, K-full], Each::call/deconstruct keep call order [K-bnd].  Lemmas: first_match_is_statement, "
-    "history_independence [V].",
+    "history_independence [V].  private::eval (the function generated code calls) returns exactly eval::eval's decision for the call "
+    "and sends errors through handle_error only [V].",
     trusted=["BTreeMap<TypeId,_>::get returns only the entry of that key (std; unreachable for Kani: TypeId ordering)", "harnesses build the no_std+spin-lock feature set; the functions under contract contain no cfg"],
 )
 
@@ -152,8 +153,9 @@ claim(
     "K-inst on the catalogue's guard-free single-alternative instances: with diagnostics enabled, the set of argument positions recorded "
     "in the MismatchReporter equals { i | argument i does not match sub-pattern i } for every argument tuple, each once, with kind "
     "Pattern/Eq/Ne as written; the runtime collection functions (MismatchReporter::{pat_fail, eq_fail, ne_fail}, "
-    "MismatchesBuilder::collect_from_reporter) record / collect each report with its argument position and kind, losing, duplicating and "
-    "reordering nothing [V, all inputs].  All message TEXT (Trait::method(args), Debug renderings, file:line, Display of MockError) is string "
+    "MismatchesBuilder::{collect_from_reporter, build}) record / collect each report with its argument position, kind and its two renderings "
+    "in their own fields (actual stays actual), losing, duplicating, merging and reordering nothing [V, all inputs; K-bnd twins execute the std "
+    "conversions the V unit assumes].  All message TEXT (Trait::method(args), Debug renderings, file:line, Display of MockError) is string "
     "formatting and is not covered.",
     trusted=["catalogue of programs", "message text is outside (str reasoning / core::fmt)"],
 )
